@@ -80,6 +80,8 @@ def handle (op : String) (args : List String) : Option String :=
       match meaning codingF f with
       | none => pure "false"
       | some m => pure (boolStr (meshStr m == " ".intercalate rest))
+  | "c08.holds.entrypoints_agree" | "c08.holds.header_entrypoints_agree" | "c08.holds.save_agrees" =>
+      some (boolStr (allSegmentsEqual args))
   | _ => none
 
 end Driver.C08
